@@ -32,6 +32,7 @@
 import AY.Lemmas.OnceLemmas
 import AY.Lemmas.TaintLemmas
 import AY.Lemmas.SafeFlagLemmas
+import AY.Model.Construct
 namespace AY
 
 /-! ### Merging: the flag algebra -/
@@ -108,7 +109,7 @@ theorem C07_leafRule_conj (s o : Node) :
       if hasPrio s.flags o.flags false then eSafe s.flags && (o.flags.safe != some false) && o.flags.dSafe
       else eSafe o.flags && (s.flags.safe != some false) && s.flags.dSafe := by
   unfold leafRule
-  split <;> simp only [setFlags_flags, C07_replaceOther_conj]
+  split <;> simp only [propagate_flags, setFlags_flags, C07_replaceOther_conj]
 
 theorem C07_leafRule_safe_only_if (s o : Node) (h : eSafe (leafRule s o).1.flags = true) :
     s.flags.safe ≠ some false ∧ o.flags.safe ≠ some false ∧ s.flags.dSafe = true ∧ o.flags.dSafe = true ∧
@@ -144,10 +145,155 @@ theorem C07_finishMerge_conj {sf : Flags} {sk : CompKind} {scs : List (Key × No
     · rename_i r' same hp
       cases h
       rw [propagate_flags, maybePromote_flags hp, C07_replaceSelf_conj]
-  · rw [maybePromote_flags h, C07_replaceOther_conj]
+  · split at h
+    · cases h
+    · rename_i r' same hp
+      cases h
+      rw [propagate_flags, maybePromote_flags hp, C07_replaceOther_conj]
 
 example : ∃ r b, finishMerge { safe := some false } (.call "f") [] (.comp { prio := some 1 } .dict []) = .ok (r, b) ∧
     eSafe r.flags = false := ⟨_, _, rfl, by decide⟩
+
+/-! ### Merging: an unsafe mark merged into the surviving node reaches its children -/
+
+/- "Merging can only spread unsafety, never remove it … below an !unsafe node": `_replace_self` and
+   (since the repair "flags merged into the surviving node were not handed down to its children")
+   `_replace_other` end with `_propagate_implicit_values` on the surviving node. If what that node
+   hands down (`_get_child_kwargs`: `implicit_safe = notnone_or(_safe, _implicit_safe)`) is `False`,
+   then after the propagation EVERY direct child carries `_implicit_safe = False` and is therefore
+   unsafe — whatever the child's flags were before, whether or not anything else changed. -/
+theorem C07_merge_unsafe_reaches_children (f : Flags) (k : CompKind) (cs : List (Key × Node)) (kw : ChildKw)
+    (hk : childKw f k = some kw) (hs : kw.iSafe = some false) :
+    ∀ key c, (key, c) ∈ (propagate (.comp f k cs)).children →
+      c.flags.iSafe = some false ∧ eSafe c.flags = false := by
+  intro key c hm
+  have hst : (Node.comp f k cs).isStream = false := by
+    cases k <;> first | rfl | simp [childKw] at hk
+  have := propagate_children_unsafe (.comp f k cs) hst
+    (by show f.safe.or f.iSafe = some false; rw [← childKw_iSafe hk]; exact hs) key c hm
+  exact ⟨this, eSafe_of_iSafe_false this⟩
+
+example : childKw { safe := some false } .dict = some { iDel := none, iNew := none, iSafe := some false } ∧
+    (propagate (.comp { safe := some false } .dict [(.str "x", .leaf {} (.scalar (.int 1)))])).children
+      = [(.str "x", .leaf { iSafe := some false } (.scalar (.int 1)))] := ⟨rfl, rfl⟩
+
+/- the hypothesis is about what the node hands down, not about its own effective safety: a node
+   that is unsafe only by inheritance but carries an explicit `safe=True` hands down `True`
+   (`_get_child_kwargs` takes the explicit flag first) -/
+example : eSafe ({ safe := some true, iSafe := some false } : Flags) = false ∧
+    (childKw { safe := some true, iSafe := some false } .dict).map (·.iSafe) = some (some true) := by decide
+
+/- the explicit mark of either node survives in the winner: `_safe = notnone_or(_safe, True) and other._safe` -/
+theorem C07_merge_explicit_unsafe_kept (w l : Flags) (h : w.safe = some false ∨ l.safe = some false) :
+    (mergeSafe w l).safe = some false ∧ (replaceOtherFlags w l).safe = some false ∧
+    (replaceSelfFlags w l).safe = some false :=
+  ⟨mergeSafe_safe_false h, mergeSafe_safe_false h, mergeSafe_safe_false h⟩
+
+example : (replaceOtherFlags { prio := some 1 } { safe := some false }).safe = some false := by decide
+
+/- lifted to `ConfigNode.on_merge_impl` (`leafRule`): if either node is explicitly `!unsafe`, every
+   child of the surviving node is unsafe (a stream hands nothing down) -/
+theorem C07_leafRule_unsafe_reaches_children (s o : Node)
+    (hu : s.flags.safe = some false ∨ o.flags.safe = some false) (hst : (leafRule s o).1.isStream = false) :
+    ∀ key c, (key, c) ∈ (leafRule s o).1.children → eSafe c.flags = false := by
+  intro key c hm
+  by_cases hp : hasPrio s.flags o.flags false = true
+  · have e : leafRule s o = (propagate (s.setFlags (replaceOtherFlags s.flags o.flags)), true) := by
+      simp [leafRule, hp]
+    rw [e] at hst hm
+    simp only [propagate_isStream] at hst
+    exact eSafe_of_iSafe_false (propagate_children_unsafe _ hst
+      (by rw [setFlags_flags, (C07_merge_explicit_unsafe_kept _ _ hu).2.1]; rfl) key c hm)
+  · have e : leafRule s o = (propagate (o.setFlags (replaceOtherFlags o.flags s.flags)), false) := by
+      simp [leafRule, hp]
+    rw [e] at hst hm
+    simp only [propagate_isStream] at hst
+    exact eSafe_of_iSafe_false (propagate_children_unsafe _ hst
+      (by rw [setFlags_flags, (C07_merge_explicit_unsafe_kept _ _ hu.symm).2.1]; rfl) key c hm)
+
+example : (leafRule (.comp { prio := some 1 } .dict [(.str "x", .leaf {} (.imp "os"))])
+    (.leaf { safe := some false } (.scalar (.int 1)))).1
+    = .comp { prio := some 1, safe := some false } .dict [(.str "x", .leaf { iSafe := some false } (.imp "os"))] := rfl
+
+/- lifted to the tail of `ComposedNode.on_merge_impl` (`finishMerge`, both branches, with promotions) -/
+theorem C07_finishMerge_unsafe_reaches_children {sf : Flags} {sk : CompKind} {scs : List (Key × Node)}
+    {o r : Node} {b : Bool} (h : finishMerge sf sk scs o = .ok (r, b))
+    (hu : sf.safe = some false ∨ o.flags.safe = some false) (hst : r.isStream = false) :
+    ∀ key c, (key, c) ∈ r.children → eSafe c.flags = false := by
+  intro key c hm
+  unfold finishMerge at h
+  split at h
+  · split at h
+    · cases h
+    · rename_i r' same hp
+      cases h
+      rw [propagate_isStream] at hst
+      exact eSafe_of_iSafe_false (propagate_children_unsafe _ hst
+        (by rw [maybePromote_flags hp, (C07_merge_explicit_unsafe_kept _ _ hu).2.2]; rfl) key c hm)
+  · split at h
+    · cases h
+    · rename_i r' same hp
+      cases h
+      rw [propagate_isStream] at hst
+      exact eSafe_of_iSafe_false (propagate_children_unsafe _ hst
+        (by rw [maybePromote_flags hp, (C07_merge_explicit_unsafe_kept _ _ hu).2.1]; rfl) key c hm)
+
+example : finishMerge { prio := some 1 } .dict [(.str "x", .leaf {} (.imp "os"))] (.comp { safe := some false } .dict [])
+    = .ok (.comp { prio := some 1, safe := some false } .dict [(.str "x", .leaf { iSafe := some false } (.imp "os"))], true) := rfl
+
+/- … and to the whole of `ComposedNode.on_merge_impl` (`compMerge`, for ANY recursive merge `rec`):
+   the three ways it returns — the leaf rule, the early exit "everything below self was deleted"
+   (`other._replace_other(self)`) and the tail — all end with the propagation -/
+theorem C07_compMerge_unsafe_reaches_children (rec : Node → Node → Except Err (Node × Bool))
+    {sf : Flags} {sk : CompKind} {scs : List (Key × Node)} {o r : Node} {b : Bool}
+    (h : compMerge rec sf sk scs o = .ok (r, b))
+    (hu : sf.safe = some false ∨ o.flags.safe = some false) (hst : r.isStream = false) :
+    ∀ key c, (key, c) ∈ r.children → eSafe c.flags = false := by
+  cases o with
+  | leaf of lk =>
+    simp only [compMerge, Except.ok.injEq] at h
+    have e1 : r = (leafRule (.comp sf sk scs) (.leaf of lk)).1 := by rw [h]
+    subst e1
+    exact C07_leafRule_unsafe_reaches_children _ _ hu hst
+  | comp of ok ocs =>
+    simp only [compMerge] at h
+    split at h
+    · split at h
+      · split at h
+        · cases h
+        · split at h
+          · cases h
+          · rename_i res sameAsOther hp
+            cases h
+            intro key c hm
+            rw [propagate_isStream] at hst
+            exact eSafe_of_iSafe_false (propagate_children_unsafe _ hst
+              (by rw [maybePromote_flags hp, (C07_merge_explicit_unsafe_kept of sf hu.symm).2.1]; rfl) key c hm)
+      · split at h
+        · cases h
+        · exact C07_finishMerge_unsafe_reaches_children h hu hst
+    · split at h
+      · cases h
+      · exact C07_finishMerge_unsafe_reaches_children h hu hst
+
+/-- the documents of the defect: `a: !force {x: 1}` and `a: !unsafe {}` -/
+def c07ExOlderDoc : Raw :=
+  .map .none {} [(.str "a", .map .plain { prio := some 1 } [(.str "x", .scalar .none {} (.lit (.int 1)))])]
+def c07ExNewerDoc : Raw :=
+  .map .none {} [(.str "a", .map .plain { safe := some false } [])]
+/-- `Builder.flatten` of the two documents -/
+def c07ExFlattened : Except Err Node :=
+  match construct {} c07ExOlderDoc, construct {} c07ExNewerDoc with
+  | .ok a, .ok b => flatten [a, b]
+  | _, _ => .error .value
+
+/- the older `a` outranks the newer one and survives (`_replace_other`); it takes over the mark and
+   — since the repair — `a.x` is unsafe in the merged tree itself, not only in copies of it -/
+example : c07ExFlattened = .ok (.comp {} .dict [
+    (.str "a", .comp { prio := some 1, safe := some false } .dict [
+      (.str "x", .leaf { prio := some 1, iSafe := some false } (.scalar (.int 1)))])]) := by rfl
+example : ∃ m, c07ExFlattened = .ok m ∧
+    (getNode m [.str "a", .str "x"]).map (fun n => eSafe n.flags) = some false := ⟨_, rfl, by decide⟩
 
 /-! ### Execution is guarded -/
 
